@@ -96,3 +96,23 @@ Proof.
     | apply tie_neon_name].
 Qed.
 Print Assumptions loop_shells_as_translated.
+
+(* ---- the helpers the word-at-a-time scanner calls: match_tail, match_block and offsetnz of swar.rs, translated
+   statement by statement on this run (Generated/SwarFns.v, the `for (i, b) in .. .enumerate()` loop included),
+   are the functions a call of them is read as above (Scan.first_bad, Intrinsics.offsetnz); in particular
+   offsetnz never reaches its `unreachable!()` ---- *)
+From HV Require Import Intrinsics.
+From HV.Generated Require Import SwarFns.
+From HV.Proofs Require Import TieSwarFns.
+Theorem swar_helpers_as_translated : forall W f l,
+  g_match_tail W f l = Some (first_bad f l) /\
+  (length l = W -> g_match_block W f l = Some (first_bad f l)) /\
+  g_offsetnz W l = Some (offsetnz W l).
+Proof.
+  intros W f l. split; [apply tie_match_tail|]. split; [apply tie_match_block|apply tie_offsetnz].
+Qed.
+Print Assumptions swar_helpers_as_translated.
+Example swar_helpers_example :
+  g_match_tail 8 (fun b => N.ltb 32 b) [65; 66; 9; 67]%N = Some 2 /\ g_offsetnz 4 [0; 0; 128; 0]%N = Some 2 /\
+  g_offsetnz 4 [0; 0; 0; 0]%N = Some 4.
+Proof. repeat split; reflexivity. Qed.
